@@ -5,5 +5,6 @@ cd "$(dirname "$0")"
 PYTHONPATH=/repo PYTHONHASHSEED=0 BETCODE_ORG_FLUMINE_VERIF=1 /venv/bin/python harness/impl/gen_consts.py
 cd coq
 coq_makefile -f _CoqProject $(ls Model/*.v Gen/*.v Proofs/*.v Props/*.v) -o Makefile > /dev/null
+rm -f .Makefile.d   # dependencies are recomputed for the current file list
 timeout 3000 make -j16 > /dev/null
 echo "setup ok"
